@@ -18,7 +18,7 @@ fn cfg() -> GenCfg {
     c
 }
 
-const EXTRA_KEYS: &[&str] = &["/", "~", "~0", "~1", "a/b", "", "0", "1", "-", "-1", "00", "01", "~01", "/a", "a~1b", "2"];
+const EXTRA_KEYS: &[&str] = &["/", "~", "~0", "~1", "a/b", "", "0", "1", "-", "-1", "00", "01", "~01", "/a", "a~1b", "2", "a][b", "][", "k][0][v", "a][0", "[0]", "$", "$[0]", "a.b", "*", "a,b", "a:b", "?@", "a b"];
 
 fn gen_doc9(src: &mut Src) -> J {
     // the generic generator plus a layer of JSON-Pointer-hostile names
@@ -223,8 +223,8 @@ fn check_missing(src: &mut Src, doc: &J, obs: &mut Obs) -> Res {
                     let cands: Vec<String> = m
                         .iter()
                         .flat_map(|(k, v)| match v {
-                            J::Obj(m2) => m2.iter().map(|(k2, _)| format!("{}/{}", k, k2)).collect::<Vec<_>>(),
-                            J::Arr(a2) if !a2.is_empty() => vec![format!("{}/0", k)],
+                            J::Obj(m2) => m2.iter().flat_map(|(k2, _)| vec![format!("{}/{}", k, k2), format!("{}][{}", k, k2), format!("{}.{}", k, k2), format!("{}']['{}", k, k2)]).collect::<Vec<_>>(),
+                            J::Arr(a2) if !a2.is_empty() => vec![format!("{}/0", k), format!("{}][0", k), format!("{}[0]", k)],
                             _ => vec![],
                         })
                         .chain(m.iter().filter(|(k, _)| k.contains('/') || k.contains('~')).map(|(k, _)| k.replace('~', "~0").replace('/', "~1")))
